@@ -163,7 +163,11 @@ type verifHost struct {
 	gate   chan bool // true: this attempt succeeds
 	stream *verifStream
 	errs   []error // error returned by the i-th failed call (own identity each)
-	cap    int     // configured number of stream-open attempts (0: not set)
+	cap    int     // configured number of stream-open attempts PER SEND (0: not set)
+	// script, when set, fixes the outcome of the i-th NewStream call (true: the stream opens)
+	script []bool
+	// sendStart: index of the first NewStream call of the send in progress (for the per-send cap)
+	sendStart int
 }
 
 func (h *verifHost) ID() peer.ID { return h.id }
@@ -182,11 +186,13 @@ func (h *verifHost) NewStream(ctx context.Context, p peer.ID, pids ...protocol.I
 	if h.cap > 0 {
 		// checked where the excess attempt is made, so that an unbounded retry loop is reported at
 		// once instead of being unrolled to the loop bound
-		zz.Assert(n <= h.cap, "no more than the configured number of stream-open attempts")
+		zz.Assert(n-h.sendStart <= h.cap, "no more than the configured number of stream-open attempts")
 	}
 	var ok bool
 	if h.gate != nil {
 		ok = <-h.gate
+	} else if h.script != nil {
+		ok = n-1 < len(h.script) && h.script[n-1] && ctx.Err() == nil
 	} else {
 		// modelling assumption: a libp2p host never opens a stream on a context that is already done
 		ok = ctx.Err() == nil && !zz.Bool("host.openFails")
@@ -239,6 +245,14 @@ func verifBackoffAttempt(b *backoff.Backoff) float64 {
 }
 
 //verif:stub (*github.com/jpillora/backoff.Backoff).ForAttempt verifBackoffForAttempt
+//verif:stub (*github.com/jpillora/backoff.Backoff).Reset verifBackoffReset
+
+// Reset restarts the attempt counter.
+func verifBackoffReset(b *backoff.Backoff) {
+	if verifBackoffCalls != nil {
+		verifBackoffCalls[b] = 0
+	}
+}
 
 // ForAttempt(n) is the duration Duration() would return for attempt n without advancing the counter.
 func verifBackoffForAttempt(b *backoff.Backoff, attempt float64) time.Duration {
@@ -270,16 +284,12 @@ func verifLetKernelRun() {
 func verifNetwork(h *verifHost, attempts int, protos []protocol.ID) *libp2pDataTransferNetwork {
 	verifBackoffCalls = map[*backoff.Backoff]int{}
 	h.cap = attempts
-	return &libp2pDataTransferNetwork{
-		host:                  h,
-		openStreamTimeout:     time.Hour,
-		sendMessageTimeout:    time.Hour,
-		maxStreamOpenAttempts: float64(attempts),
-		minAttemptDuration:    verifBackoffWait,
-		maxAttemptDuration:    verifBackoffWait,
-		backoffFactor:         1,
-		dtProtocols:           protos,
+	// through the real constructor and its options, so that whatever the constructor sets up is there
+	opts := []Option{SendMessageParameters(time.Hour, time.Hour), RetryParameters(verifBackoffWait, verifBackoffWait, float64(attempts), 1)}
+	if protos != nil {
+		opts = append(opts, DataTransferProtocols(protos))
 	}
+	return NewFromLibp2pHost(h, opts...).(*libp2pDataTransferNetwork)
 }
 
 // ---- message double --------------------------------------------------------
